@@ -88,6 +88,17 @@ func Freeze() {
 	}
 }
 
+// closedErr tells why the reactor accepts nothing any more, nil while it is neither stopping nor frozen.
+func (r *reactor) closedErr() error {
+	if r.ctx.Err() != nil {
+		return ErrReactorShuttingDown
+	}
+	if r.freezeCtx.Err() != nil {
+		return ErrReactorFrozen
+	}
+	return nil
+}
+
 // ReceiveFeedback sends an item to the feedback channel.
 // If the item is not present on the state table it gets discarded
 func ReceiveFeedback(item *models.Item) error {
@@ -112,6 +123,11 @@ func ReceiveFeedback(item *models.Item) error {
 		if globalReactor.stateTable.CompareAndSwap(item.GetID(), old, item) {
 			break
 		}
+	}
+	// select picks at random among its ready cases and the input channel always has room for a tracked
+	// seed: without this test a frozen or stopping reactor still accepts about half of the feedbacks.
+	if err := globalReactor.closedErr(); err != nil {
+		return err
 	}
 	select {
 	case <-globalReactor.ctx.Done():
@@ -138,6 +154,13 @@ func ReceiveInsert(item *models.Item) error {
 		logger.Debug("received item on frozen reactor", "item", item.GetShortID())
 		return ErrReactorFrozen
 	case globalReactor.tokenPool <- struct{}{}:
+		// select picks at random among its ready cases: with a free token a frozen or stopping reactor
+		// would still accept about half of the inserts. Test again and give the token back.
+		if err := globalReactor.closedErr(); err != nil {
+			<-globalReactor.tokenPool
+			logger.Debug("received item on frozen or shutting down reactor", "item", item.GetShortID())
+			return err
+		}
 		logger.Debug("received item", "item", item.GetShortID())
 		if !item.IsSeed() {
 			spew.Dump(item)
